@@ -70,6 +70,12 @@ fn histories(depth: usize) -> Vec<Vec<TxS>> {
     out
 }
 
+/// Number of CHUNK-sized cut ranges that cover every byte `t` can write (an upper bound on its stored size; the run
+/// checks that the bound holds).
+fn chunks_for(t: &TxS) -> usize {
+    (t.estimated_size() + 64) / CHUNK + 1
+}
+
 pub fn cases(tier: Tier, multi_only: bool) -> Vec<Case> {
     let mut v = Vec::new();
     let (depth, comps): (usize, Vec<bool>) = if tier.is_thorough() { (3, vec![true, false]) } else { (1, vec![true]) };
@@ -77,17 +83,21 @@ pub fn cases(tier: Tier, multi_only: bool) -> Vec<Case> {
     if !tier.is_thorough() {
         // plus the depth-2 histories that start with a failed (half-written) append
         let failed = history_alphabet()[2].clone();
-        for x in history_alphabet() {
+        for x in history_alphabet().into_iter().take(3) {
             hs.push(vec![failed.clone(), x]);
         }
     }
     for compression in comps {
         for h in &hs {
-            for t in next_alphabet() {
+            for (ti, t) in next_alphabet().into_iter().enumerate() {
                 if multi_only && t.events.len() < 2 {
                     continue;
                 }
-                for c in 0..11 {
+                // quick: behind a two-step history only the two smallest next transactions
+                if !tier.is_thorough() && h.len() == 2 && ti >= 2 {
+                    continue;
+                }
+                for c in 0..chunks_for(&t) {
                     v.push(Case { compression, history: h.clone(), next: t.clone(), k_from: c * CHUNK, k_to: (c + 1) * CHUNK });
                 }
             }
@@ -292,6 +302,9 @@ pub fn run_case_for(property: &str, case: &Case, out: &mut WorkerOut) {
             return;
         }
     };
+    if p.n + 1 > chunks_for(&case.next) * CHUNK {
+        vcommon::machinery_fail(&format!("C05: the transaction wrote {} bytes, more than the {} cut positions enumerated for it", p.n, chunks_for(&case.next) * CHUNK));
+    }
     let scratch = fresh_dir("c05img");
     let lo = case.k_from.min(p.n + 1);
     let hi = case.k_to.min(p.n + 1);
